@@ -7,7 +7,7 @@
 import TrompModel.Model.CxxBase
 namespace Tromp.Cxx
 
-/-- `impl::range_any_of_checker::operator()` — translated from include/trompeloeil/matcher/range.hpp:551 -/
+/-- `impl::range_any_of_checker::operator()` — translated from include/trompeloeil/matcher/range.hpp:557 -/
 def range_any_of {α μ : Type} (accepts : μ → α → Bool) (range : List α) (comp : μ) : Bool := Id.run do
   let it : List α := range
   return it.any (fun (t : α) => accepts comp t)
